@@ -56,8 +56,9 @@ def encBlocks : List (Nat × Bool) → List Bytes → Option Bytes
   | [], [] => some (writeVarint 0)
   | [], _ :: _ => none
   | (n, sized) :: bl, encs =>
-    if n = 0 ∨ encs.length < n then none else
     let body := (encs.take n).flatten
+    -- counts and byte sizes are Avro longs
+    if n = 0 ∨ encs.length < n ∨ ¬ n < 2 ^ 63 ∨ ¬ body.length < 2 ^ 63 then none else
     match encBlocks bl (encs.drop n) with
     | none => none
     | some rest =>
@@ -72,8 +73,8 @@ def encode : Plan → ASchema → Value → Option Bytes
   | _, .long, .int i => if inRange 64 i then some (writeVarint i) else none
   | _, .float, .float b => if b < 2 ^ 32 then some (putLE 4 b) else none
   | _, .double, .double b => if b < 2 ^ 64 then some (putLE 8 b) else none
-  | _, .bytes, .bytes bs => some (encBytes bs)
-  | _, .string, .bytes bs => some (encBytes bs)
+  | _, .bytes, .bytes bs => if bs.length < 2 ^ 63 then some (encBytes bs) else none
+  | _, .string, .bytes bs => if bs.length < 2 ^ 63 then some (encBytes bs) else none
   | _, .fixed n, .bytes bs => if bs.length = n then some bs else none
   | _, .enum n, .int i => if 0 ≤ i ∧ i < n then some (writeVarint i) else none
   | .node _ subs, .record _ fs, .record vs => encodeFields subs fs vs
@@ -82,7 +83,7 @@ def encode : Plan → ASchema → Value → Option Bytes
     | none => none
     | some encs => encBlocks blocks encs
   | .node blocks subs, .map values, .map ks vs =>
-    if ks.length ≠ vs.length then none else
+    if ks.length ≠ vs.length ∨ ¬ ks.all (fun k => k.length < 2 ^ 63) then none else
     match encodeItems subs values vs with
     | none => none
     | some encs => encBlocks blocks (List.zipWith (fun k e => encBytes k ++ e) ks encs)
@@ -91,7 +92,7 @@ def encode : Plan → ASchema → Value → Option Bytes
     | some b, [p] =>
       match encode p b v with
       | none => none
-      | some e => some (writeVarint idx ++ e)
+      | some e => if idx < 2 ^ 63 then some (writeVarint idx ++ e) else none
     | _, _ => none
   | _, _, _ => none
 
